@@ -352,6 +352,24 @@ func (st *State) inferInvariants(pre *State, li *loopInfo, ws *writeSet) []candi
 		return nil
 	}
 	e := st.eng()
+	loopKey := fmt.Sprintf("%p/%d", li.header, st.frame.depth)
+	if u.houdiniDead == nil {
+		u.houdiniDead = map[string]map[string]bool{}
+	}
+	dead := u.houdiniDead[loopKey]
+	if dead == nil {
+		dead = map[string]bool{}
+		u.houdiniDead[loopKey] = dead
+	}
+	{
+		var alive []candidate
+		for _, c := range cands {
+			if !dead[c.name] {
+				alive = append(alive, c)
+			}
+		}
+		cands = alive
+	}
 	// initiation: candidates must hold in the pre-state
 	var goals []Term
 	var live []candidate
@@ -367,6 +385,8 @@ func (st *State) inferInvariants(pre *State, li *loopInfo, ws *writeSet) []candi
 	for i, c := range live {
 		if res[i] {
 			keep = append(keep, c)
+		} else {
+			dead[c.name] = true
 		}
 	}
 	cands = keep
@@ -429,6 +449,8 @@ func (st *State) inferInvariants(pre *State, li *loopInfo, ws *writeSet) []candi
 		for i, c := range cands {
 			if alive[i] {
 				next = append(next, c)
+			} else {
+				dead[c.name] = true
 			}
 		}
 		cands = next
@@ -446,7 +468,7 @@ func (e *Engine) multiQuery(asserts []Term, goals []Term) []bool {
 		return res
 	}
 	var sb strings.Builder
-	sb.WriteString("(set-option :timeout 1500)\n(set-logic ALL)\n")
+	sb.WriteString("(set-option :timeout 600)\n(set-logic ALL)\n")
 	sb.WriteString(smtPrelude)
 	used := map[string]bool{}
 	for _, a := range asserts {
